@@ -105,6 +105,16 @@ def random_c08(rng, n):
             cands.append(t)
         cands += [tag[:rng.randrange(32)], tag + rbytes(rng, rng.randint(1, 3)), rbytes(rng, 32), list(reversed(tag))]
         out.append({"op": "hmac", "key": key, "msg": msg, "cands": cands})
+    # in every run: chains of calls under keys of one length that differ in exactly one byte (first, middle, second half, last)
+    for ln in (16, 20, 32, 64, 100):
+        base = rbytes(rng, ln)
+        for j in (None, ln - 1, ln // 2, (3 * ln) // 4, 0, None):
+            key = list(base)
+            if j is not None:
+                key[j] ^= 0x40
+            msg = rbytes(rng, rng.choice([0, 5, 55, 64]))
+            tag = list(pyhmac.new(bytes(key), bytes(msg), hashlib.sha256).digest())
+            out.append({"op": "hmac", "key": key, "msg": msg, "cands": [tag, tag[:31], rbytes(rng, 32)]})
     return out
 
 
